@@ -976,6 +976,181 @@ def rx_queue_cases(chk, rng, tier, prefix):
     return out
 
 
+# ---------------------------------------------------------------- send queue through the real pacing path (shared with C18)
+class _VClock(object):
+    ''' stands in for the `time` module inside udpcl.agent: a virtual monotonic clock '''
+
+    def __init__(self, real):
+        self._real = real
+        self.ns = 10 ** 12
+
+    def monotonic_ns(self):
+        return self.ns
+
+    def __getattr__(self, name):
+        return getattr(self._real, name)
+
+
+def tx_queue_histories(rng, tier):
+    ''' (mtu, [(peer index, length)]) — transfers queued back to back; some cannot be sent '''
+    hs = [(10, [(0, 100), (0, 5)]), (40, [(0, 100), (0, 5)]), (None, [(0, 300), (0, 0), (1, 7)]),
+          (8, [(0, 3), (0, 50), (0, 7), (0, 8), (0, 2)]), (8, [(0, 50), (1, 60), (0, 3), (1, 4)]),
+          (30, [(0, 200), (1, 10), (0, 300), (1, 29), (0, 30), (0, 31)]), (7, [(0, 7)]), (12, [(0, 30000), (0, 4)]),
+          (0, [(0, 0), (0, 1)])]
+    for _ in range(120 if tier == 'thorough' else 10):
+        m = rng.choice([None, rng.randrange(0, 14), rng.randrange(0, 14), rng.randrange(14, 80), 576])
+        hs.append((m, [(rng.randrange(0, 2), rng.choice([0, 1, 5, rng.randrange(0, 40), rng.randrange(0, 400)]))
+                       for _i in range(rng.randrange(1, 7))]))
+    return hs
+
+
+def run_tx_queue_history(rig, hist):
+    ''' send_bundle_data for every item, then the idle and timeout sources of the (stub) GLib loop are fired,
+    with a virtual clock, until nothing is pending → (ids, per-id observations, escaped, [(short signature, what)]) '''
+    from gi.repository import GLib
+    mtu, items = hist['mtu'], hist['items']
+    loop = GLib.LOOP
+    loop.reset()
+    ag = rig.agent(mtu)
+    wire = []
+
+    class FakeSock(object):
+        def sendmsg(self, bufs, _anc=None, _flags=0, addr=None):
+            wire.append((addr[0] if addr else None, b''.join(bytes(b) for b in bufs)))
+
+        def setsockopt(self, *a, **k):
+            pass
+
+        def fileno(self):
+            return -1
+
+        def close(self):
+            pass
+
+    clock = _VClock(rig.ua.time)
+    orig_sock, orig_time = rig.ua.Conversation.make_local_socket, rig.ua.time
+    rig.ua.Conversation.make_local_socket = lambda _self: FakeSock()
+    rig.ua.time = clock
+    bad = []
+
+    def note(sig, what):
+        if not any(b[0] == sig for b in bad):
+            bad.append((sig, what))
+    try:
+        ids, datas = [], {}
+        for k, (peer, n) in enumerate(items):
+            data = bytes([0x9f]) + bytes(((k * 29 + i * 7) % 250) + 1 for i in range(n - 1)) if n else b''
+            try:
+                bid = str(ag.send_bundle_data(list(data), {'address': '10.0.0.%d' % (11 + peer)}))
+            except Exception as err:   # noqa
+                note('tx-exception', 'send_bundle_data raised %s' % type(err).__name__)
+                continue
+            ids.append(bid)
+            datas[bid] = (peer, data)
+        steps, quiet = 0, False
+        while steps < 4000:
+            idle, tmo = loop.pending('idle'), loop.pending('timeout')
+            if not idle and not tmo:
+                quiet = True
+                break
+            for src in idle:
+                loop.fire(src)
+                steps += 1
+            clock.ns += 50 * 10 ** 6
+            loop.now += 50
+            for src in loop.pending('timeout'):
+                loop.fire(src)
+                steps += 1
+        for (src, err) in loop.escaped:
+            note('tx-callback-escape-%s' % type(err).__name__, '%s raised %s: %s' % (src, type(err).__name__, str(err)[:120]))
+        sig = [(name, tuple(args)) for (_p, name, _s, args) in ag._verif_signals if name.startswith('send_bundle')]
+        obs = {}
+        for bid in ids:
+            peer, data = datas[bid]
+            started = [a for (n, a) in sig if n == 'send_bundle_started' and str(a[0]) == bid]
+            fin = [a for (n, a) in sig if n == 'send_bundle_finished' and str(a[0]) == bid]
+            obs[bid] = {'started': len(started), 'finished': [[str(a[0]), int(a[1]), str(a[2])] for a in fin]}
+            if len(fin) > 1:
+                note('tx-finished-twice', 'transfer %s got %d send_bundle_finished signals: %s' % (bid, len(fin), obs[bid]['finished']))
+            if len(fin) == 0:
+                if started:
+                    note('tx-started-not-finished', 'transfer %s (%d octets, mtu_default=%s) was started but never got send_bundle_finished; '
+                         'the loop is %s' % (bid, len(data), mtu, 'idle' if quiet else 'still busy after %d callbacks' % steps))
+                else:
+                    note('tx-queue-stalled', 'transfer %s (%d octets) was never started although nothing is pending in the loop' % (bid, len(data)))
+            if len(set(ids)) != len(ids):
+                note('tx-id-reused', 'send_bundle_data returned ids %s' % ids)
+        if not quiet:
+            note('tx-queue-stalled', 'sources are still pending after %d callbacks' % steps)
+        # what went out, per transfer (bundles differ, so datagrams can be attributed), against independent arithmetic
+        ptr = {}
+        for bid in ids:
+            peer, data = datas[bid]
+            addr = '10.0.0.%d' % (11 + peer)
+            small = mtu is not None and len(data) >= mtu and mtu - overhead(int(bid), len(data)) <= 0 if bid.isdigit() else False
+            # datagrams to one peer leave in queue order: attribute them transfer by transfer
+            w = [d for (a, d) in wire if a == addr]
+            p0 = ptr.get(addr, 0)
+            if mtu is None or len(data) < mtu:
+                mine = w[p0:p0 + 1] if [f[2] for f in obs[bid]['finished']] == ['success'] else []
+            else:
+                mine = []
+                while p0 + len(mine) < len(w) and (rd_transfer(w[p0 + len(mine)]) or (None,))[0] == int(bid):
+                    mine.append(w[p0 + len(mine)])
+            ptr[addr] = p0 + len(mine)
+            obs[bid]['dgrams'] = [d.hex() for d in mine]
+            res = [f[2] for f in obs[bid]['finished']]
+            if small:
+                if mine or res not in (['failed'], []):
+                    note('tx-result-wrong', 'transfer %s cannot be segmented at mtu_default=%s but %d datagrams went out, result %s' % (bid, mtu, len(mine), res))
+            else:
+                if res not in (['success'], []):
+                    note('tx-result-wrong', 'transfer %s (%d octets, mtu_default=%s) finished with %s' % (bid, len(data), mtu, res))
+                if res == ['success']:
+                    for (s2, what) in send_monitors(int(bid), data, mtu, mine):
+                        note(s2.split(':', 1)[1], 'transfer %s: %s' % (bid, what))
+        for addr, p0 in ptr.items():
+            if p0 != len([1 for (a, _d) in wire if a == addr]):
+                note('tx-unexpected-datagram', 'datagrams to %s that belong to no finished transfer' % addr)
+        return ids, datas, obs, bad
+    finally:
+        rig.ua.Conversation.make_local_socket = orig_sock
+        rig.ua.time = orig_time
+        loop.reset()
+
+
+def tx_queue_cases(chk, rng, tier, prefix):
+    ''' Several transfers queued to one peer and to two, some of which cannot be sent, driven through the real
+    pacing path (TxSendWait ticks and idle sources of the stub loop) until nothing is pending. Monitors: every id
+    returned by send_bundle_data gets exactly one send_bundle_finished, a failed transfer does not stop the ones
+    behind it, no exception escapes a callback, what goes out is right. Returns [(signature, what, replay)]. '''
+    rig = Rig()
+    out, reqs, keep = [], [], []
+    for (mtu, items) in tx_queue_histories(rng, tier):
+        hist = {'kind': 'txq', 'mtu': mtu, 'items': [list(x) for x in items]}
+        ids, datas, obs, bad = run_tx_queue_history(rig, hist)
+        chk.case({'txq': hist['items'], 'mtu': mtu}, nontrivial=True, sample=(mtu is not None and mtu < 14 and len(items) > 1))
+        chk.cov['traces_validated_against_impl'] += 1
+        chk.count('txq:histories')
+        for bid in ids:
+            for f in obs[bid]['finished']:
+                chk.count('txq:finished-' + f[2])
+        for (sig, what) in bad:
+            out.append(('%s:%s' % (prefix, sig), what, hist))
+        if prefix == 'C13' and all(b.isdigit() for b in ids):
+            reqs.append({'op': 'udpcl.txrun', **({} if mtu is None else {'mtu': mtu}),
+                         'items': [{'id': int(b), 'data': datas[b][1].hex()} for b in ids]})
+            keep.append((hist, ids, obs))
+    if reqs:
+        for (hist, ids, obs), ans in zip(keep, chk.driver(reqs)):
+            for bid, m in zip(ids, ans.get('items', [])):
+                if obs[bid]['finished'] != m.get('finished') or obs[bid].get('dgrams') != m.get('dgrams'):
+                    chk.corr_break('send queue differs for transfer %s: impl finished %s, %d datagrams; model finished %s, %d datagrams'
+                                   % (bid, obs[bid]['finished'], len(obs[bid].get('dgrams', [])), m.get('finished'), len(m.get('dgrams', []))), hist)
+                    break
+    return out
+
+
 # ---------------------------------------------------------------- range codec
 def run_ranges(chk, rig):
     import portion
@@ -1033,6 +1208,8 @@ def run(chk):
     run_ranges(chk, rig)
     for (sig, what, rep) in rx_queue_cases(chk, chk.rng, chk.tier, 'C13'):
         chk.violation(sig, what, rep)
+    for (sig, what, rep) in tx_queue_cases(chk, chk.rng, chk.tier, 'C13'):
+        chk.violation(sig, what, rep)
 
 
 def replay(chk, path):
@@ -1069,6 +1246,15 @@ def replay(chk, path):
         for sig, what in viol:
             print('MONITOR %s: %s' % (sig, what))
         return 1 if viol else 0
+    if rep.get('kind') == 'txq':
+        ids, datas, obs, bad = run_tx_queue_history(rig, rep)
+        print('mtu_default=%s, transfers (peer, octets): %s' % (rep['mtu'], rep['items']))
+        for bid in ids:
+            print('transfer %s: started %d, finished %s, datagram sizes %s' % (
+                bid, obs[bid]['started'], obs[bid]['finished'], [len(d) // 2 for d in obs[bid].get('dgrams', [])][:10]))
+        for sig, what in bad:
+            print('MONITOR %s: %s' % (sig, what))
+        return 1 if bad else 0
     if rep.get('kind') == 'series':
         ids = list(range(rep['first_id'], rep['first_id'] + rep['n']))
         data = payload(rep['len'], rep.get('salt', 3))
